@@ -434,47 +434,56 @@ func HasNestedUnion(t ast.Type, underUnion bool) bool {
 	return false
 }
 
-// AliasCycle reports whether some object is an alias (a reference) whose chain of
-// references comes back to an alias already visited (A -> A, A -> B -> A, ...).
-func AliasCycle(schemas ast.Schemas) bool {
-	cyclic := false
+// aliasCycle (no forking): objects are nodes; an alias (an object whose type is a reference)
+// has an edge to the object its reference denotes, where "denotes" is given by match.
+// A cycle exists iff some alias reaches itself through aliases only.
+func aliasCycle(schemas ast.Schemas, match func(from *ast.Schema, ref ast.RefType, to *ast.Schema, name string) bool) bool {
+	type node struct {
+		s    *ast.Schema
+		name string
+		t    ast.Type
+	}
+	var nodes []node
 	for _, s := range schemas {
-		s.Objects.Iterate(func(_ string, o ast.Object) {
-			t := o.Type
-			for step := 0; step < 6 && t.Kind == ast.KindRef; step++ {
-				target, ok := schemas.LocateObject(t.Ref.ReferredPkg, t.Ref.ReferredType)
-				if !ok {
-					return
-				}
-				t = target.Type
+		s.Objects.Iterate(func(name string, o ast.Object) { nodes = append(nodes, node{s, name, o.Type}) })
+	}
+	n := len(nodes)
+	reach := make([][]bool, n)
+	for i := range nodes {
+		reach[i] = make([]bool, n)
+		for j := range nodes {
+			if nodes[i].t.Kind == ast.KindRef && nodes[j].t.Kind == ast.KindRef {
+				reach[i][j] = match(nodes[i].s, *nodes[i].t.Ref, nodes[j].s, nodes[j].name)
 			}
-			if t.Kind == ast.KindRef {
-				cyclic = true
+		}
+	}
+	// transitive closure (Warshall) over Bool terms
+	for k := 0; k < n; k++ {
+		for i := 0; i < n; i++ {
+			for j := 0; j < n; j++ {
+				reach[i][j] = v.Or(reach[i][j], v.And(reach[i][k], reach[k][j]))
 			}
-		})
+		}
+	}
+	cyclic := false
+	for i := 0; i < n; i++ {
+		cyclic = v.Or(cyclic, reach[i][i])
 	}
 	return cyclic
 }
 
-// LocalNameCycle: like AliasCycle but following references the way ast.Schema.Resolve does —
-// by name inside the referring object's own schema, ignoring the referred package
-// (p.Foo = ref q.Foo is looked up as p.Foo again).
+// AliasCycle: some alias's chain of references comes back to itself (A -> A, A -> B -> A).
+func AliasCycle(schemas ast.Schemas) bool {
+	return aliasCycle(schemas, func(_ *ast.Schema, ref ast.RefType, to *ast.Schema, name string) bool {
+		return v.And(ref.ReferredPkg == to.Package, ref.ReferredType == name)
+	})
+}
+
+// LocalNameCycle: the same, following references the way ast.Schema.Resolve does — by name
+// inside the referring object's own schema, ignoring the referred package (p.Foo = ref q.Foo
+// is looked up as p.Foo again).
 func LocalNameCycle(schemas ast.Schemas) bool {
-	cyclic := false
-	for _, s := range schemas {
-		s.Objects.Iterate(func(_ string, o ast.Object) {
-			t := o.Type
-			for step := 0; step < 6 && t.Kind == ast.KindRef; step++ {
-				target, ok := s.LocateObject(t.Ref.ReferredType)
-				if !ok {
-					return
-				}
-				t = target.Type
-			}
-			if t.Kind == ast.KindRef {
-				cyclic = true
-			}
-		})
-	}
-	return cyclic
+	return aliasCycle(schemas, func(from *ast.Schema, ref ast.RefType, to *ast.Schema, name string) bool {
+		return v.And(from.Package == to.Package, ref.ReferredType == name)
+	})
 }
